@@ -1024,7 +1024,65 @@ impl<'a> Gen<'a> {
         }
     }
 
+    /// FOR a .. FOR b .. body .. NEXT b,a
+    fn for_pair(&mut self, out: &mut Vec<Draft>) -> bool {
+        let a = match self.free_loop_var() {
+            Some(v) => v,
+            None => return false,
+        };
+        self.active_loops.push(a.clone());
+        let b = match self.free_loop_var() {
+            Some(v) => v,
+            None => {
+                self.active_loops.pop();
+                return false;
+            }
+        };
+        self.active_loops.push(b.clone());
+        let lit = |v: &str, n: i64| if v.ends_with('%') { Expr::int(n as i32) } else { Expr::int(n as i32) };
+        let (fa, ta) = (self.rng.range(0, 2), self.rng.range(1, 3));
+        let (fb, tb) = (self.rng.range(0, 2), self.rng.range(0, 3));
+        let mut head = vec![Stmt::For {
+            var: Var::new(&a),
+            from: lit(&a, fa),
+            to: lit(&a, fa + ta),
+            step: None,
+        }];
+        let for_b = Stmt::For {
+            var: Var::new(&b),
+            from: lit(&b, fb),
+            to: lit(&b, fb + tb),
+            step: if self.rng.pct(30) { Some(Expr::Int(2)) } else { None },
+        };
+        if self.rng.pct(50) {
+            head.push(for_b);
+            out.push(Draft { label: None, stmts: head });
+        } else {
+            out.push(Draft { label: None, stmts: head });
+            out.push(Draft {
+                label: None,
+                stmts: vec![for_b],
+            });
+        }
+        let body = self.simple();
+        let mut tail = vec![body];
+        tail.push(Stmt::Next(vec![Var::new(&b), Var::new(&a)]));
+        if self.rng.pct(40) {
+            out.push(Draft {
+                label: None,
+                stmts: vec![tail.remove(0)],
+            });
+        }
+        out.push(Draft { label: None, stmts: tail });
+        self.active_loops.pop();
+        self.active_loops.pop();
+        true
+    }
+
     fn for_loop(&mut self, depth: u32, out: &mut Vec<Draft>) {
+        if depth < 2 && self.rng.pct(15) && self.for_pair(out) {
+            return;
+        }
         let var = match self.free_loop_var() {
             Some(v) => v,
             None => return self.simple_line(out),
